@@ -6,7 +6,9 @@ from . import c07
 
 ID = 'C08'
 LEAN_MODULE = 'KernProofs.C08'
-THEOREMS = ['KM.C08.C08_terminator_count', 'KM.C08.C08_terminator_not_doubled', 'KM.C08.C08_no_terminator_without_range', 'KM.C08.C08_terminator_cells', 'KM.C08.C08_body_is_full_score_rows', 'KM.C08.C08_nested_split_witness']
+EXTRA_MODULES = ['KernProofs.C08Prefix']
+THEOREMS = ['KM.C08.C08_terminator_count', 'KM.C08.C08_terminator_not_doubled', 'KM.C08.C08_no_terminator_without_range', 'KM.C08.C08_terminator_cells', 'KM.C08.C08_body_is_full_score_rows', 'KM.C08.C08_nested_split_witness',
+            'KM.C08P.bodyRows_prefix', 'KM.C08P.toStage_le', 'KM.C08P.C08_excerpt_from_start', 'KM.C08P.bodyRows_range_free']
 FINGERPRINTS = ['exporter.Exporter.export_string', 'exporter.Exporter.is_signature_cancelled', 'exporter.Exporter.export_token', 'importer.Importer',
                 'document.Document', 'document.SignatureNodes']
 RULE = ('core stream: generated **kern-only documents whose signatures precede the first measure (the same kinds in every spine), whose splits are '
